@@ -137,7 +137,13 @@ class Refactoring:
         """
         Applies the whole refactoring to the files, which includes renames.
         """
-        for f in self.get_changed_files().values():
+        changed_files = self.get_changed_files()
+        if None in changed_files:
+            # Fail before anything is written, not half way through.
+            raise RefactoringError(
+                'Cannot apply a refactoring on a Script with path=None'
+            )
+        for f in changed_files.values():
             f.apply()
 
         for old, new in self.get_renames():
